@@ -28,6 +28,9 @@ pub fn variants(thorough: bool) -> Vec<BuildSpec> {
     for p in transform_passes() {
         v.push(mk(format!("O0+{p}@pre-lowering"), false, vec![PassOp::InsertBefore { before: FIRST_LOWERING.into(), name: p.into() }]));
     }
+    // the whole O1 pipeline against the O0 baseline: pass interactions (a pass that only misbehaves
+    // on what its predecessors produce) show here in the quick tier; thorough names the culprit
+    v.push(mk("O1-full".to_string(), true, vec![]));
     if thorough {
         // the O0 list is [lower-init-aggr, fn-dedup-debug, inline, globals-dce, dce, <lowering…>]
         for pos in 1..=4usize {
@@ -82,7 +85,7 @@ fn run(a: &vhcore::Args) -> i32 {
     let mut diffs: Vec<Diff> = vec![];
     for cr in &res.per_case {
         for (vi, v) in vars.iter().enumerate() {
-            let base_label = if v.release { "O1" } else { "O0" };
+            let base_label = if v.release && v.label != "O1-full" { "O1" } else { "O0" };
             let (Some(base), Some(var)) = (cr.builds.get(base_label), cr.builds.get(&v.label)) else { continue };
             compared += 1;
             if let CaseBuild::Ran(o) = var {
@@ -119,10 +122,12 @@ fn run(a: &vhcore::Args) -> i32 {
     for d in &diffs {
         let case = &cases[d.case_idx];
         let v = &vars[d.variant];
-        let base_label = if v.release { "O1" } else { "O0" };
+        let base_label = if v.release && v.label != "O1-full" { "O1" } else { "O0" };
         let ins = inserted(&v.label);
         let key = if let Some(k) = case.known_class {
             format!("C03|{k}")
+        } else if v.label == "O1-full" {
+            format!("C03|pipeline=O1-vs-O0|{}", norm_kind(&d.kind))
         } else if ins.is_empty() {
             // O1 with one pass removed: name the removed pass
             let removed = res
